@@ -672,6 +672,15 @@ func (e *Engine) splitN(c *Call, s, sep *Term, n int) []*State {
 	if !sep.Const || sep.S == "" {
 		panic(unsupported("strings.Split with symbolic/empty separator"))
 	}
+	memoKey := fmt.Sprintf("split:%d:%s:%s", n, sep.S, s.SMT())
+	if v, ok := st.Ghost[memoKey]; ok {
+		// same string split again on this path: same decomposition, no new fork
+		var parts []*Term
+		for _, p := range v.(Tuple) {
+			parts = append(parts, p.(*Term))
+		}
+		return c.Return(mk(st, parts))
+	}
 	maxSeps := splitMax
 	if n > 0 && n-1 < maxSeps {
 		maxSeps = n - 1
@@ -707,6 +716,11 @@ func (e *Engine) splitN(c *Call, s, sep *Term, n int) []*State {
 		conds = append(conds, Eq(s, StrConcat(cat...)))
 		outs = append(outs, Outcome{Cond: And(conds...), Eff: func(s2 *State) {
 			fr := s2.Threads[c.Th.ID].top()
+			memo := make(Tuple, len(pieces))
+			for i, p := range pieces {
+				memo[i] = p
+			}
+			s2.Ghost[memoKey] = memo
 			if c.RetTo != nil {
 				e.setLocal(fr, c.RetTo, mk(s2, pieces))
 			}
